@@ -13,6 +13,7 @@ import GooseVerif.Model.Core
 import GooseVerif.Model.Heap
 import GooseVerif.Model.Coll
 import GooseVerif.Model.Conc
+import GooseVerif.Model.Fun
 
 def main (args : List String) : IO UInt32 := do
   match args with
@@ -41,6 +42,9 @@ def main (args : List String) : IO UInt32 := do
   | ["coll"] => Driver.lineLoop (fun (_ : Unit) ws => ((), GooseVerif.Model.Coll.run ws)) (); return 0
   | ["collgo"] => Driver.lineLoop (fun (_ : Unit) ws => ((), GooseVerif.Model.Coll.runGoToks ws)) (); return 0
   | ["collt"] => Driver.lineLoop (fun (_ : Unit) ws => ((), GooseVerif.Model.Coll.runTToks ws)) (); return 0
+  | ["fun"] => Driver.lineLoop (fun (_ : Unit) ws => ((), GooseVerif.Model.Fun.run ws)) (); return 0
+  | ["fungo"] => Driver.lineLoop (fun (_ : Unit) ws => ((), GooseVerif.Model.Fun.runGoToks ws)) (); return 0
+  | ["funt"] => Driver.lineLoop (fun (_ : Unit) ws => ((), GooseVerif.Model.Fun.runTToks ws)) (); return 0
   | ["core"] => Driver.lineLoop (fun (_ : Unit) ws => ((), GooseVerif.Model.Core.run ws)) (); return 0
   | ["corego"] => Driver.lineLoop (fun (_ : Unit) ws => ((), GooseVerif.Model.Core.runGoToks ws)) (); return 0
   | ["corewf"] => Driver.lineLoop (fun (_ : Unit) ws => ((), GooseVerif.Model.Core.runWf ws)) (); return 0
